@@ -305,6 +305,20 @@ public:
         strides[i-1] = arraysize;
     }
 
+    //set extents: those of the input tables, and the fully supported range
+    //of the new dimension
+    extents = allocate<double_ptr>(ndim);
+    extents[0] = nullptr;
+    extents[0] = allocate<double>(2*ndim);
+    for(unsigned int i=1; i<ndim; i++)
+      extents[i] = &extents[0][2*i];
+    for(unsigned int i=0; i<inputDim; i++){
+      extents[i][0] = tables.front()->lower_extent(i);
+      extents[i][1] = tables.front()->upper_extent(i);
+    }
+    extents[inputDim][0] = knots[inputDim][order[inputDim]];
+    extents[inputDim][1] = knots[inputDim][nknots[inputDim]-order[inputDim]-1];
+
     }catch(...){
       release();
       throw;
